@@ -272,4 +272,6 @@ IvRunsAreRuns ==
         /\ \A s \in Strings : IvRuns(IvsOf(s)) = Runs(StringSet(s))
         /\ \A i1 \in All, i2 \in All, i3 \in {i \in All : i[2] - i[1] <= 1} :
                IvRuns({i1, i2, i3}) = Runs((i1[1]..i1[2]) \cup (i2[1]..i2[2]) \cup (i3[1]..i3[2]))
+\* nothing is ever removed (with BitsAreTheSet: the bit set only grows)
+Monotone == [][set \subseteq set' /\ ivs \subseteq ivs']_vars
 =============================================================================
